@@ -8,11 +8,13 @@
     * is a single-world expression over the nodes of the graph (`id_estimand_swOK`; hypothesis `hsw` of
       `canonical_of_sound`),
     * has no denominator that vanishes at any valuation, in every compatible model (`id_estimand_denNZA`; hypothesis `hz`),
-    * denotes a positive number (`id_estimand_pos`).
+    * denotes a positive number (`id_estimand_pos`),
+    * is well scoped (`id_estimand_wellScoped`: the decidable quantifier `WellScoped` of C10 holds for it).
 -/
 import Y0.Props.C01
 import Y0.Props.C06Id
 import Y0.Lemmas.SemObs
+import Y0.Lemmas.IdWellScoped
 
 namespace Y0
 namespace C01Sem
@@ -48,6 +50,10 @@ theorem id_estimand_pos {topo : MG Name → Except Err (List Name)} (ts : TopoSo
     (X Y : List Name) (e : Expr) (h : identify topo G X Y = .ok e) (M : Scm) (hM : M.Compatible G) (σ' σ : Val) :
     0 < den (M.env G) σ' e σ :=
   Scm.den_pos_of_obsOnly hM hG σ' e (id_vocab topo (topoNodes_of_sound ts) G hG X Y e h) (id_estimand_zf G X Y e h) σ
+
+/-- **the estimand of ID is well scoped**: the quantifier of C10 covers every output of ID -/
+theorem id_estimand_wellScoped {topo : MG Name → Except Err (List Name)} (G : MG Name) (X Y : List Name) (e : Expr)
+    (h : identify topo G X Y = .ok e) : WellScoped e = true := id_wellScoped topo G X Y e h
 
 end C01Sem
 end Y0
